@@ -15,6 +15,7 @@ import (
 	"github.com/hashicorp/nodeenrollment"
 	"github.com/hashicorp/nodeenrollment/registration"
 	"github.com/hashicorp/nodeenrollment/rotation"
+	storeonce "github.com/hashicorp/nodeenrollment/storage/testing"
 	"github.com/hashicorp/nodeenrollment/types"
 	"google.golang.org/protobuf/proto"
 	"google.golang.org/protobuf/types/known/structpb"
@@ -168,4 +169,97 @@ func TestVerifReplayC10(t *testing.T) {
 	// but not under a key that is neither current nor previous
 	_, _, r4 := c10Request(t, bystander, newCreds.CertificatePublicKeyPkix, nil)
 	refused("payload under a key that is neither current nor previous", r4)
+}
+
+// Node-id lookups (a storage that implements NodeIdLoader): a request naming a node id is honored only
+// against the records of that node id.
+func TestVerifReplayC10NodeId(t *testing.T) {
+	ctx := context.Background()
+	st, err := storeonce.New(ctx)
+	if err != nil {
+		t.Fatal(err)
+	}
+	if _, err := rotation.RotateRootCertificates(ctx, st); err != nil {
+		t.Fatal(err)
+	}
+	creds, req, keyId, ns := vrFreshNode(t)
+	if _, err := registration.AuthorizeNode(ctx, st, req); err != nil {
+		t.Fatal(err)
+	}
+	resp, err := registration.FetchNodeCredentials(ctx, st, req)
+	if err != nil {
+		t.Fatal(err)
+	}
+	creds, err = creds.HandleFetchNodeCredentialsResponse(ctx, ns, resp)
+	if err != nil {
+		t.Fatal(err)
+	}
+	rec, err := types.LoadNodeInformation(ctx, st, keyId)
+	if err != nil {
+		t.Fatal(err)
+	}
+	rec.NodeId = "node-a"
+	if err := st.Remove(ctx, rec); err != nil {
+		t.Fatal(err)
+	}
+	if err := rec.Store(ctx, st); err != nil {
+		t.Fatal(err)
+	}
+	count := func() int {
+		ids, err := st.List(ctx, (*types.NodeInformation)(nil))
+		if err != nil {
+			t.Fatal(err)
+		}
+		return len(ids)
+	}
+	_, _, r := c10Request(t, creds, creds.CertificatePublicKeyPkix, nil)
+	r.NodeId = "node-that-does-not-exist"
+	before := count()
+	if out, err := rotation.RotateNodeCredentials(ctx, st, r); err == nil && out != nil && len(out.EncryptedFetchNodeCredentialsResponse) > 0 {
+		t.Errorf("a rotation request naming an unknown node id was honored")
+	}
+	if count() != before {
+		t.Errorf("a refused rotation request (unknown node id) registered a record")
+	}
+	// several records under one node id: whichever record's key sealed the payload, the reply opens with that key
+	credsB, reqB, keyB, nsB := vrFreshNode(t)
+	if _, err := registration.AuthorizeNode(ctx, st, reqB); err != nil {
+		t.Fatal(err)
+	}
+	respB, err := registration.FetchNodeCredentials(ctx, st, reqB)
+	if err != nil {
+		t.Fatal(err)
+	}
+	credsB, err = credsB.HandleFetchNodeCredentialsResponse(ctx, nsB, respB)
+	if err != nil {
+		t.Fatal(err)
+	}
+	recB, err := types.LoadNodeInformation(ctx, st, keyB)
+	if err != nil {
+		t.Fatal(err)
+	}
+	recB.NodeId = "node-a"
+	if err := st.Remove(ctx, recB); err != nil {
+		t.Fatal(err)
+	}
+	if err := recB.Store(ctx, st); err != nil {
+		t.Fatal(err)
+	}
+	for name, c := range map[string]*types.NodeCredentials{"first record": creds, "second record": credsB} {
+		newCreds, _, rr := c10Request(t, c, creds.CertificatePublicKeyPkix, nil)
+		rr.NodeId = "node-a"
+		out, err := rotation.RotateNodeCredentials(ctx, st, rr)
+		if err != nil {
+			t.Errorf("%s of the node id: rotation refused: %v", name, err)
+			continue
+		}
+		fr := new(types.FetchNodeCredentialsResponse)
+		if err := nodeenrollment.DecryptMessage(ctx, out.EncryptedFetchNodeCredentialsResponse, c, fr); err != nil {
+			t.Errorf("%s of the node id: the reply does not open with the key that sealed the request: %v", name, err)
+			continue
+		}
+		if !vrOpens(newCreds, fr) {
+			t.Errorf("%s of the node id: the credentials inside do not open with the new key", name)
+		}
+	}
 }
